@@ -1415,6 +1415,27 @@ class AtomsLevelOrders:
             at.charge = 0
             at.build()
             check(at, "LiH; spin = 2; charge = 0; build()", spin=2)
+            # a scalar filling assigned while the object is spin-paired, then two spin channels: the range follows the CURRENT Nspin
+            at = Atoms("He", [[0.0, 0.0, 0.0]], ecut=3, a=cell)
+            at.f = 2
+            at.unrestricted = True
+            at.build()
+            check(at, "He; f = 2; unrestricted = True; build()", spin=0)
+            at = Atoms(["Li", "H"], [[0.0, 0.0, 0.0], [0.0, 0.0, 3.0]], ecut=3, a=cell)
+            at.occ.f = 2
+            at.occ.Nspin = 2
+            at.build()
+            check(at, "LiH; occ.f = 2; occ.Nspin = 2; build()", spin=0)
+            # an explicitly requested spin survives a later change of the charge
+            at = Atoms("O", [[0.0, 0.0, 0.0]], ecut=3, a=cell, spin=2, unrestricted=True)
+            at.charge = 1
+            at.build()
+            check(at, "O, spin = 2, unrestricted; charge = 1; build()", spin=2)
+            at = Atoms("O", [[0.0, 0.0, 0.0]], ecut=3, a=cell, spin=2, unrestricted=True)
+            at.charge = -1
+            at.charge = 0
+            at.build()
+            check(at, "O, spin = 2; charge = -1; charge = 0; build()", spin=2)
         except Exception as e:  # noqa: BLE001
             bad.append(dict(raised=f"{type(e).__name__}: {e}"))
         return bad
@@ -1425,7 +1446,7 @@ class AtomsLevelOrders:
         bad = self.problems()
         if bad:
             return Result(REFUTED, backend="native", witness=bad[0], replayed=True, replay_info=dict(failing=bad[:5]), detail=f"occupations of an Atoms object: {bad[0]}")
-        return Result(BOUNDED_OK, backend="native", detail="bounded: seven assignment orders through the Atoms interface (set_k with new weights + smearing, Z / species re-assigned on charged objects, charge / spin orders)")
+        return Result(BOUNDED_OK, backend="native", detail="bounded: eleven assignment orders through the Atoms interface (set_k with new weights + smearing, Z / species re-assigned on charged objects, charge / spin orders)")
 
     def replay(self, wit):
         bad = self.problems()
